@@ -15,7 +15,7 @@ import concurrent.futures as cf
 from common import (SPEC, VH, CLI, Report, ToolError, build_harness, build_cli, run_tlc, seed, tier, workdir)
 from pure_engine import parse_emitted
 
-NL = 45  # catalogue length of MCPp.tla (checked against the emitted cases)
+NL = 47  # catalogue length of MCPp.tla (checked against the emitted cases)
 # the catalogue of MCPp.tla (kept in step with it: check_c01 compares it with the emitted cases)
 MCPP_CATALOGUE = [
     "x", "", "  y", "x A y B", "AB", " \t",
@@ -26,7 +26,8 @@ MCPP_CATALOGUE = [
     "TXTPP#tag A", "TXTPP#tag B", "TXTPP#tag AB",
     "-TXTPP#write q", "-TXTPP#write", "-", "-A", " r", "-TXTPP#run", "-TXTPP#temp bad.txtpp",
     "// TXTPP#temp t1", "// c", "//", "   d", "-TXTPP#", "TXTPP#runx", "-TXTPP#write  TXTPP#tag A", "TXTPP#include p4",
-    "// TXTPP#temp sub/t2", "TXTPP#include t1", "  TXTPP#tag A", "\t-TXTPP#write  q r ", "-TXTPP#temp p2"]
+    "-TXTPP#temp sub/t2", "TXTPP#include t1", "  TXTPP#tag A", "\t-TXTPP#write  q r ", "-TXTPP#temp p2",
+    "TXTPP#include pm", "-TXTPP#run sh mx"]
 
 PP_CFG = """SPECIFICATION Spec
 CONSTANTS
@@ -39,11 +40,11 @@ CHECK_DEADLOCK FALSE
 
 ENV_FILES = [
     dict(path="b/p1", text="a\n"), dict(path="b/p2", text="a"), dict(path="b/p3", text="a\n\nb\n"),
-    dict(path="b/e0", text=""), dict(path="b/pc", text="a\r\nb\r\n"), dict(path="b/p4", text="c\r\n"),
+    dict(path="b/e0", text=""), dict(path="b/pc", text="a\r\nb\nc\r\n"), dict(path="b/p4", text="c\r\n"),
     dict(path="b/d1.txtpp", text="D\n"),
     dict(path="b/pa", text="printf a\n"), dict(path="b/ab", text="printf 'a\\nb\\n'\n"),
     dict(path="b/cr", text="printf 'a\\r\\nb\\r\\n'\n"), dict(path="b/x3", text="echo zz\nexit 3\n"),
-    dict(path="b/nl", text="echo\n"), dict(path="b/sub/.keep", text=""),
+    dict(path="b/nl", text="echo\n"), dict(path="b/pm", text="a\nb\r\n"), dict(path="b/mx", text="printf 'a\\r\\nb\\nc'\n"), dict(path="b/sub/.keep", text=""),
 ]
 ENV_NAMES = {f["path"][2:] for f in ENV_FILES}
 
@@ -54,7 +55,7 @@ def structured_sources(rng, limit):
     temp files that are read back; directive chains. Returned as lists of catalogue indices (1-based)."""
     ix = {l: i + 1 for i, l in enumerate(MCPP_CATALOGUE)}
     tags = ["TXTPP#tag A", "TXTPP#tag B", "TXTPP#tag AB", "  TXTPP#tag A"]
-    quiet = [["-TXTPP#after d1"], ["// TXTPP#temp t1", "// c"], ["-TXTPP#"], ["// TXTPP#temp t1"], ["-TXTPP#", "-A"], ["// TXTPP#temp sub/t2", "//"]]
+    quiet = [["-TXTPP#after d1"], ["// TXTPP#temp t1", "// c"], ["-TXTPP#"], ["// TXTPP#temp t1"], ["-TXTPP#", "-A"], ["-TXTPP#temp sub/t2", "-"]]
     loud = [["TXTPP#include p1"], ["TXTPP#include p2"], ["TXTPP#include p4"], ["TXTPP#include pc"], ["-TXTPP#run echo a"], ["-TXTPP#run sh pa"],
             ["  -TXTPP#run sh ab"], ["-TXTPP#write q"], ["-TXTPP#write", "-"], ["TXTPP#include d1"], ["-TXTPP#run true"], ["\t-TXTPP#write  q r "],
             ["TXTPP#include e0"], ["-TXTPP#write"]]
@@ -525,7 +526,7 @@ def check_c12():
     if quick:
         # a seeded sample of first lines, plus every first line through which foreign terminators can enter:
         # tags (stored content), includes of LF / CRLF / multi-line files, CRLF command output, write, temp bodies
-        relevant = [i + 1 for i, l in enumerate(MCPP_CATALOGUE) if any(k in l for k in ("TXTPP#tag", "include p", "sh cr", "sh ab", "TXTPP#write", "TXTPP#temp t1"))]
+        relevant = [i + 1 for i, l in enumerate(MCPP_CATALOGUE) if any(k in l for k in ("TXTPP#tag", "include p", "sh cr", "sh ab", "sh mx", "TXTPP#write", "TXTPP#temp t1"))]
         firsts = [0] + sorted(set(rng.sample(range(1, NL + 1), 8)) | set(relevant))
     states, cases = spec_run(rep, "C12", wd, maxlen, firsts)
     cat = catalogue_from(cases) if len(firsts) == NL + 1 else None
